@@ -19,7 +19,10 @@ import CE.Canon
   `chunked_encoding_is_a_fixed_point`: the same when the document also contains arrays sent in chunks
   (any chunking, any division of the data into data events): what the decoder delivers for the
   encoder's bytes encodes to exactly those bytes again (CE/Cbe/ItemRoundTrip.lean).
-  `…_partial`: floats (narrowest exact width), typed-array headers and the same fixed point for
+  `small_array_form_is_chosen_and_shorter` / `long_array_form_only_without_short_form`: typed-array headers -
+  the short form is written whenever the format offers it (short code, at most 15 elements) and is shorter than
+  the other form by exactly the chunk header; otherwise the one remaining form is written.
+  `…_partial`: floats (narrowest exact width) and the same fixed point for
   media / custom types are decided on every run by the driver's independent size
   oracle (CBE.MINLEN) and by decode→encode byte identity on the implementation.
 -/
@@ -102,5 +105,40 @@ theorem chunked_encoding_is_a_fixed_point (items : List Item) (h : ∀ i ∈ ite
 
 example : (encPosInt 100).length = 1 ∧ (encPosInt 101).length = 2 ∧ (encPosInt (2 ^ 48)).length = 9 := by
   decide
+
+/-- typed-array headers: whenever the format offers the short form for an array (a type with a short code
+    and at most 15 elements) the encoder writes it, and it is strictly shorter than the only other form
+    (type code + chunk header), by exactly the chunk header -/
+theorem small_array_form_is_chosen_and_shorter (t : ArrT) (count : Nat) (data hs : Bytes)
+    (h1 : smallHeader t count = some hs) :
+    encArrayWhole t count data = .ok (hs ++ data) ∧
+    ∃ hl, arrayHeader t = .ok hl ∧
+      (hs ++ data).length + (chunkHeader count false).length = (hl ++ chunkHeader count false ++ data).length ∧
+      0 < (chunkHeader count false).length := by
+  refine ⟨by simp [encArrayWhole, h1], ?_⟩
+  have hpos : 0 < (chunkHeader count false).length := by unfold chunkHeader; exact uleb_length_pos _
+  unfold smallHeader at h1
+  split at h1
+  · cases h1
+  · cases t <;> simp [shortCode] at h1 <;> subst h1 <;>
+      exact ⟨_, rfl, by simp [List.length_append]; omega, hpos⟩
+
+/-- … and when the format offers no short form (more than 15 elements, or a type without a short code) the
+    encoder writes the one form there is -/
+theorem long_array_form_only_without_short_form (t : ArrT) (count : Nat) (data hl : Bytes)
+    (h1 : smallHeader t count = none) (h2 : arrayHeader t = .ok hl) :
+    encArrayWhole t count data = .ok (hl ++ chunkHeader count false ++ data) ∧
+    (count > maxSmallArrayLength ∨ shortCode t = none) := by
+  refine ⟨by simp [encArrayWhole, h1, h2, bind, Except.bind], ?_⟩
+  unfold smallHeader at h1
+  split at h1
+  · left; assumption
+  · right
+    cases hc : shortCode t with
+    | none => rfl
+    | some p => obtain ⟨c, b⟩ := p; cases b <;> simp [hc] at h1
+
+/-- non-vacuity: a 3-element uint16 array takes the short form, a 16-element one cannot -/
+example : (smallHeader .u16 3).isSome = true ∧ smallHeader .u16 16 = none ∧ (arrayHeader .u16).toOption.isSome = true := by decide
 
 end CE.Props.C22
